@@ -235,11 +235,8 @@ def check_history(acc, cfg, hosting, cur, hist, tmp):
             err = None
         except Exception as ex:
             err = (type(ex).__name__, str(ex)[:160])
-        if pred is not None:
-            if err is None or err[0] != 'ValueError':
-                acc.violation(f'C17/documented-error-missing/{pred}', 'documented ValueError is raised instead of recording a number', case,
-                              {'got': err})
-            acc.outcomes[('documented-error', pred)] += 1
+        if pred is not None and err is not None and err[0] == 'ValueError':
+            acc.outcomes[('documented-error', pred)] += 1      # (C09 judges whether the error must be raised)
             return
         if err is not None:
             acc.violation(f'C17/event-error/{e}/{err[0]}', 'runs, continuations, stops and resets succeed', case, {'error': err, 'step': step})
